@@ -12,7 +12,8 @@
    covered by the correspondence suites of the check, not by these theorems. *)
 From Coq Require Import NArith List Bool Arith.
 From CL Require Import Base.Sx Base.Res Base.Str Regex.Rx Model.Pattern Model.Matcher
-  Proofs.MatcherSpec Proofs.MatcherSound Proofs.MatcherExpand.
+  Proofs.MatcherSpec Proofs.MatcherSound Proofs.MatcherExpand Proofs.MatcherComplete
+  Proofs.PathUnique Proofs.MatcherUnique Proofs.MatcherRoundtrip.
 Import ListNotations.
 
 (* Soundness of matching.  If a matcher of the grammar matches a path with
@@ -36,6 +37,49 @@ Proof.
   intros M path d HS Hm. destruct (sub_self_expand M path d HS Hm) as [p0 [H1 H2]].
   exists p0. split; auto. unfold sub. rewrite Hm. simpl. rewrite H2. reflexivity.
 Qed.
+
+(* Completeness of matching.  Take a matcher of the grammar whose regular
+   expression compiles (no group name twice) and whose variable names are not
+   star group names.  Give every node a piece: a literal itself, a variable its
+   value (from the environment, else from d), a wildcard its value in d
+   ([node_piece]); the piece of a star has no '/', of a double star is empty or
+   a non-empty text without newline + suffix, of an unbound variable is
+   non-empty without newline ([piece_fits]).  Then the pieces are what the
+   pattern expands to under the environment of sub, and the matcher matches
+   that path. *)
+Theorem C11_match_complete : forall M d pieces,
+  simple M -> compiles M -> Forall var_not_star (p_nodes (m_pat M)) -> NoDup (map fst d) ->
+  Forall2 (piece_for (m_env M) d) (p_nodes (m_pat M)) pieces ->
+  expand_pattern (sub_env d (m_env M)) false (m_pat M) = Ok (concat pieces) /\
+  exists d', match_ M (concat pieces) = Ok (Some d').
+Proof.
+  intros M d pieces HS HC Hv Hd HF. split.
+  - apply expand_pieces; auto. clear - HF. induction HF; constructor; auto. destruct H; auto.
+  - eapply match_complete; eauto.
+Qed.
+
+(* The grammar of the property ([in_grammar], Proofs/MatcherRoundtrip.v): a
+   simple matcher that compiles, all variables bound (to wildcard-free values),
+   stars in different '/'-segments and at most one double star: the node list
+   read as F0 W1 F1 ... Wn Fn satisfies PathUnique.shape_ok.
+
+   Uniqueness: two valuations whose expansions coincide give every node the
+   same piece, hence agree on every wildcard. *)
+Theorem C11_unique : forall M g g' X Y, in_grammar M ->
+  Forall2 (piece_for (m_env M) g) (p_nodes (m_pat M)) X ->
+  Forall2 (piece_for (m_env M) g') (p_nodes (m_pat M)) Y ->
+  concat X = concat Y -> X = Y.
+Proof. exact pieces_unique_grammar. Qed.
+
+(* The round trip.  The two newline premises are the `$` caveat made explicit:
+   CPython's `$` accepts one final newline, so a path ending in "\n" comes back
+   without it (C12_whole_path). *)
+Theorem C11_roundtrip : forall P Q path path',
+  in_grammar P -> in_grammar Q -> same_wildcards P Q ->
+  no_final_newline path -> no_final_newline path' ->
+  sub P Q path = Ok (Some path') ->
+  (exists d', match_ Q path' = Ok (Some d')) /\ sub Q P path' = Ok (Some path).
+Proof. exact roundtrip. Qed.
 
 (* ---- the grammar is inhabited and matching is not vacuous ---------------------- *)
 Definition ex_env : list (str * str) :=
@@ -65,6 +109,41 @@ Proof.
   - split; [vm_compute; reflexivity|]. split; [reflexivity|].
     vm_compute. repeat constructor; simpl; intuition discriminate.
   - split; [vm_compute; reflexivity|]. vm_compute. auto.
+Qed.
+
+(* r/**/x-*.ftl  <->  {base}/{locale}/**/y_*.ftl : both in the grammar, same
+   wildcards, and a concrete round trip *)
+Definition ex_ref : str := of_ascii [114;47;42;42;47;120;45;42;46;102;116;108].
+Definition ex_l10n : str :=
+  of_ascii [123;98;97;115;101;125;47;123;108;111;99;97;108;101;125;47;42;42;47;121;95;42;46;102;116;108].
+
+Example C11_example_in_grammar : exists P Q,
+  mk_matcher ex_ref [] None = Ok P /\ mk_matcher ex_l10n ex_env None = Ok Q /\
+  in_grammar P /\ in_grammar Q /\ same_wildcards P Q /\
+  sub P Q (of_ascii [114;47;97;47;98;47;120;45;113;46;102;116;108])           (* r/a/b/x-q.ftl *)
+    = Ok (Some (of_ascii [47;108;49;48;110;47;100;101;47;97;47;98;47;121;95;113;46;102;116;108])).
+Proof.
+  destruct (mk_matcher ex_ref [] None) as [P|] eqn:EP; [|vm_compute in EP; discriminate].
+  destruct (mk_matcher ex_l10n ex_env None) as [Q|] eqn:EQ; [|vm_compute in EQ; discriminate].
+  exists P, Q. vm_compute in EP. inversion EP; subst P. vm_compute in EQ. inversion EQ; subst Q.
+  split; [reflexivity|]. split; [reflexivity|].
+  split; [|split; [|split; [reflexivity|vm_compute; reflexivity]]].
+  - split; [split; [reflexivity|split; [reflexivity|constructor]]|].
+    split; [eexists; eexists; vm_compute; reflexivity|].
+    split; [repeat constructor|]. split; [repeat constructor|].
+    right. vm_compute.
+    exists [], [47%N], [120%N; 45%N], [(WStar, [46; 102; 116; 108]%N)].
+    repeat split; auto.
+  - split; [split; [vm_compute; reflexivity|split; [reflexivity|]]|].
+    { vm_compute. repeat constructor; simpl; intuition discriminate. }
+    split; [eexists; eexists; vm_compute; reflexivity|].
+    split.
+    { repeat constructor; simpl; intros k H; inversion H. }
+    split.
+    { repeat constructor; simpl; discriminate. }
+    right. vm_compute.
+    exists [], [47%N], [121%N; 95%N], [(WStar, [46; 102; 116; 108]%N)].
+    repeat split; auto.
 Qed.
 
 (* ---- outside the grammar the round trip fails ------------------------------------ *)
